@@ -61,19 +61,30 @@ _SPECS = [  # (fmt, file name the image is called by, size, dpi kwarg)
     # attribute tells apart (via "samepath" writes one image after the other to one path)
     ("BMP", "b2.bmp", (6, 2), (300, 300)),
     # eight more PNGs: a deck can hold more than ten images of ONE format (image1.png .. image10.png and beyond)
-] + [("PNG", "p%d.png" % k, (2 + k, 3), None) for k in range(1, 9)]
+] + [("PNG", "p%d.png" % k, (2 + k, 3), None) for k in range(1, 9)] + [
+    # photographs as a camera held upright writes them: the pixel rows are stored sideways and an EXIF Orientation tag (6: rotate 90 CW
+    # to display, 8: rotate 270) says so.  The statement's "pixel dimensions of the actual image" are those of the stored pixel grid
+    # (fifth field: the orientation written into the file's EXIF block)
+    ("JPEG", "upright.jpg", (8, 3), (72, 72), 6),
+    ("PNG", "upright.png", (5, 9), None, 8),
+]
 
 
 def universe() -> list[dict]:
     from PIL import Image
     import pptx
     out = []
-    for i, (fmt, name, size, dpi) in enumerate(_SPECS):
+    for i, spec in enumerate(_SPECS):
+        fmt, name, size, dpi = spec[:4]
         im = Image.new("RGB", size, ((i * 53 + 17) % 256, (i * 101) % 256, (i * 29 + 90) % 256))
         if fmt == "GIF":
             im = im.convert("P")
         b = io.BytesIO()
         kw = {"dpi": dpi} if dpi is not None else {}
+        if len(spec) > 4:
+            exif = Image.Exif()
+            exif[0x0112] = spec[4]
+            kw["exif"] = exif
         im.save(b, fmt, **kw)
         out.append({"bytes": b.getvalue(), "file": name})
     from pptx.media import SPEAKER_IMAGE_BYTES
